@@ -24,11 +24,15 @@ MANIFEST = {
     "text": "Coq theorems over the schema-interpreter model (all inputs, all fuels): re-cleaning an encoded value is the "
             "identity per property kind (clean_encode_idem), hence the constructor returns the same object from the object's own "
             "encoding and re-encoding gives the same ordered members (roundtrip_equal_partial / reserialize_identical_partial: "
-            "118 of the 123 generated classes incl. Relationship, Sighting and both MarkingDefinition classes with the wrapped "
-            "definition and the 2.0 per-instance precision of created, plain JSON input; the class list is recomputed by the "
-            "kernel each run; roundtrip_equal_parse_partial: the same at stix2.parse level for 86 entry-point classes; "
+            "119 of the 123 generated classes incl. Relationship, Sighting, both MarkingDefinition classes with the wrapped "
+            "definition and the 2.0 per-instance precision of created, and 2.1 Indicator with its pattern_version default, "
+            "plain JSON input; the class list is recomputed by the "
+            "kernel each run; roundtrip_equal_parse_partial: the same at stix2.parse level for 89 entry-point classes incl. "
+            "MarkingDefinition and 2.1 Indicator; "
             "roundtrip_equal_bundle_partial: both Bundle classes, members parsed from their own dictionaries and stored as "
-            "objects of parse-covered classes -- 120 of 123 in all, not ObservedData x2 and 2.1 Indicator); "
+            "objects of parse-covered classes -- 121 of 123 in all; roundtrip_equal_observed_partial: 2.1/ObservedData in its "
+            "object_refs form (no objects member); outside: ObservedData given an objects dictionary of observables (the 2.0 "
+            "form and the deprecated 2.1 form)); "
             "the two encoders differ exactly on defaulted optionals; sort_keys/indent/compact/pretty are permutations of "
             "members (same JSON value); pretty keeps the top-level class order. Model tied to /repo by regenerated class "
             "tables and a correspondence run of serialize under every option; the property itself is evaluated on the real "
@@ -277,7 +281,7 @@ def gen_cases(run, per_class):
             cases.append(case)
             # objects the library derives from that object's Python values (not from JSON-like data)
             if r.random() < 0.5:
-                how = r.choice(["deepcopy", "rebuild", "other-version", "new-version", "zone:" + r.choice(ZONES)])
+                how = r.choice(["deepcopy", "rebuild", "other-version", "new-version", "revoke", "copy", "pickle", "zone:" + r.choice(ZONES)])
                 cases.append(dict(case, derive=how, opts=CORE_OPTS[:4] + [r.choice(ALL_OPTS)]))
             if i == 0:
                 # every class once with its timestamps given as aware datetimes of another zone
@@ -287,6 +291,54 @@ def gen_cases(run, per_class):
 
 # zones for timestamps given as aware datetimes: fixed offsets and named zones (with daylight saving)
 ZONES = ["+05:30", "-04:00", "+14:00", "-09:30", "US/Eastern", "Europe/Berlin", "Asia/Kolkata", "Australia/Lord_Howe"]
+
+
+EXT_TLA = "extension-definition--5a1f7c2e-3b4d-4e6f-8a9b-0c1d2e3f4a5b"
+EXT_TLB = "extension-definition--6b2a8d3f-4c5e-4f70-9bac-1d2e3f4a5b6c"
+
+
+def toplevel_ext_cases(gen, n):
+    """objects carrying one or both of the two toplevel-property-extensions registered in the worker, each preceded
+    (in the same process) by an object of another combination: what one object's construction leaves behind in the
+    extension classes must not reach the next"""
+    r = gen.rng
+    out = []
+    cids = [c for c in gen.toplevel_ids() if c.startswith("2.1/") and gen.classes[c]["family"] in ("sdo", "sro")
+            and any(s["name"] == "extensions" for s in gen.classes[c]["slots"])]
+
+    def with_ext(o, which):
+        x = copy.deepcopy(o)
+        x.pop("extensions", None)
+        ext = {}
+        if "A" in which:
+            ext[EXT_TLA] = {"extension_type": "toplevel-property-extension"}
+            x["a_rank"] = 3
+            if r.random() < 0.5:
+                x["a_note"] = "n"
+        if "B" in which:
+            ext[EXT_TLB] = {"extension_type": "toplevel-property-extension"}
+            x["b_req"] = "b"
+            if r.random() < 0.5:
+                x["b_num"] = 7
+        x["extensions"] = ext
+        return x
+
+    for i in range(n):
+        cid = r.choice(cids)
+        try:
+            o = gen.obj(cid, optional_p=r.choice([0.3, 0.8]))
+        except (IndexError, ValueError, KeyError):
+            continue
+        which, before = r.choice([("A", "AB"), ("A", "AB"), ("B", "AB"), ("AB", "A"), ("A", "B"), ("AB", "B")])
+        route = r.choice(["parse", "construct"])
+        bdata = with_ext(o, before)
+        data = with_ext(o, which)
+        if route == "construct":
+            data.pop("type", None)
+        out.append({"route": route, "cid": cid, "data": data, "allow": False, "opts": CORE_OPTS[:3], "expect_created": True,
+                    "control": {"route": "parse", "cid": cid, "data": o, "allow": False},
+                    "before": [{"route": "parse", "cid": cid, "data": bdata, "allow": False}]})
+    return out
 
 
 def late_cases(gen, n):
@@ -312,8 +364,16 @@ def late_cases(gen, n):
                     d["spec_version"] = "2.1"
         route = r.choice(["construct", "parse"])
         data = {k: v for k, v in d.items() if not (route == "construct" and k == "type")}
+        if kind == "obs" and ver == "2.0" and r.random() < 0.6:
+            # the late type as a member of a 2.0 observed-data container (members go through parse_observable)
+            od = {"type": "observed-data", "id": "observed-data--" + gen.uuid(), "created": t0, "modified": t0,
+                  "first_observed": t0, "last_observed": t0, "number_observed": 1, "objects": {"0": dict(d)}}
+            out.append({"route": "parse", "cid": "2.0/ObservedData", "data": od, "allow": False,
+                        "late": {"type": t, "ver": ver, "kind": kind, "member": True, "probe": dict(d),
+                                 "cid": "custom/%s/%s" % (ver, t)}, "opts": CORE_OPTS[:3], "expect_created": True})
+            continue
         out.append({"route": route, "cid": "custom/%s/%s" % (ver, t), "data": data, "allow": False,
-                    "late": {"type": t, "ver": ver, "kind": kind}, "opts": CORE_OPTS[:3]})
+                    "late": {"type": t, "ver": ver, "kind": kind}, "opts": CORE_OPTS[:3], "expect_created": True})
     return out
 
 
@@ -445,7 +505,8 @@ def check(run):
             hdr = ("From Coq Require Import List String.\nFrom V Require Import Base.UString Model.SchemaTypes "
                    "Proofs.C01LibInstance Gen.Tables.\nImport ListNotations. Open Scope string_scope.\n"
                    "Definition names (l : list ustring) : string := fold_right (fun x acc => append (show_ustr x) (append \" \" acc)) \"\" l.\n")
-            cov = common.coq_eval_lines("c01cov", hdr, ["names lib_proved_idsw", "names lib_unproved_ids", "names lib_bundle_ids"])
+            cov = common.coq_eval_lines("c01cov", hdr, ["names lib_proved_idsw", "names lib_unproved_ids", "names lib_bundle_ids", "names lib_observed_ids"])
+            run.coverage["roundtrip_theorem_classes_proved_without_objects_member"] = cov[3].split()
             run.coverage["roundtrip_theorem_classes_proved"] = len(cov[0].split()) + len(cov[2].split())
             run.coverage["roundtrip_theorem_classes_proved_by_bundle_theorem"] = cov[2].split()
             run.coverage["roundtrip_theorem_classes_unproved"] = cov[1].split()
@@ -454,7 +515,8 @@ def check(run):
     run.coverage["extension_property_order_sorted"] = SORTED_EXT_ORDER[0]
     cases = FIXED_CASES + gen_cases(run, per_class)
     cases += custom_type_cases(stixgen.Gen(run.rng))
-    cases += late_cases(stixgen.Gen(run.rng), 40 if run.tier == "thorough" else 10)
+    cases += late_cases(stixgen.Gen(run.rng), 40 if run.tier == "thorough" else 12)
+    cases += toplevel_ext_cases(stixgen.Gen(run.rng), 40 if run.tier == "thorough" else 10)
     results = common.run_impl("c01_impl", cases)
     created = 0
     hist = {}
